@@ -3,11 +3,13 @@
    theories/QuadkeyConv.v (list level), theories/DC11.v (run-time checkers).
    ALL theorems are about the executable models (unbounded Z). They transfer to the Go code for quadkey zooms 1..31 — the property's own
    range — where C11_key_bound keeps every partial sum of the encoder below 4^31 = 2^62 (no int64 wrap); from zoom 32 on Go's sum wraps
-   ("32/0/2147483648" gives -2^63) and nothing is claimed. The tie model <-> code is the differential run (corr), not a theorem. *)
+   ("32/0/2147483648" gives -2^63) and nothing is claimed; both halves are theorems over the regenerated int64 kernels
+   (the theorems named C11_int64_...). Otherwise the tie model <-> code is the differential run (corr), not a theorem. *)
 From Coq Require Import ZArith String List Lia Bool.
 From Coq Require Floats.
 From SID Require Import Base Str Ids ZoomCore AltKeyCore ChangeZoom BitAlt Wire Quadkey QuadkeyConv QuadkeyObj DC11 GenC11.
-From SIDGen Require Generated.
+From SIDGen Require Generated Generated64.
+From SID Require I64.
 From SID Require F64.
 Import ListNotations.
 Open Scope Z_scope.
@@ -345,6 +347,32 @@ Theorem C11_altitudekey_pairs_by_the_generated_indices : forall es oq oa E O, qc
 Proof. exact e2qa_spec_indexed. Qed.
 Print Assumptions C11_altitudekey_pairs_by_the_generated_indices.
 
+(* ---- int64 (theories/GenC11.v over SIDGen.Generated64, the integer kernels of /repo regenerated with Go's int64 semantics explicit):
+   the transfer of the key theorems to the Go encoder for quadkey zooms <= 31 is a THEOREM about the regenerated step kernels, and the
+   first zoom beyond has a computed wrap witness. `encode64` = the X loop then the Y loop over Generated64's cond/step kernels (the loop
+   structure and the string parsing around them are written by hand). ---- *)
+Theorem C11_int64_encoder_is_exact_up_to_zoom_31 : forall h x y, 0 <= h <= 31 -> 0 <= x < 2 ^ 63 -> 0 <= y < 2 ^ 63 ->
+  encode64 h x y = Some (encode h x y, true).
+Proof. exact encode64_fits. Qed.
+Print Assumptions C11_int64_encoder_is_exact_up_to_zoom_31.
+Theorem C11_int64_key_is_interleaving : forall h x y, 1 <= h <= 31 -> 0 <= x < 2 ^ h -> 0 <= y < 2 ^ h ->
+  I64.fits (encode64 h x y) = true /\ I64.go_value (encode64 h x y) = Some (interleave h x y).
+Proof. exact encode64_is_interleaving. Qed.
+Print Assumptions C11_int64_key_is_interleaving.
+Theorem C11_int64_wraps_at_zoom_32 :
+  encode64 32 0 (2 ^ 31) = Some (- 2 ^ 63, false) /\ encode 32 0 (2 ^ 31) = 2 ^ 63 /\
+  Generated64.convertHorizontalIDToQuadkey_stepY 0 31 1 32 = Some ((- 2 ^ 63, 32, 0), false).
+Proof. exact encode64_wraps_at_zoom_32. Qed.
+Print Assumptions C11_int64_wraps_at_zoom_32.
+Theorem C11_int64_step_without_overflow_is_the_unbounded_step : forall q i t h r,
+  (Generated64.convertHorizontalIDToQuadkey_stepX q i t h = Some (r, true) -> r = Generated.convertHorizontalIDToQuadkey_stepX q i t h) /\
+  (Generated64.convertHorizontalIDToQuadkey_stepY q i t h = Some (r, true) -> r = Generated.convertHorizontalIDToQuadkey_stepY q i t h).
+Proof. exact step64_exact. Qed.
+Print Assumptions C11_int64_step_without_overflow_is_the_unbounded_step.
+Theorem C11_int64_zoom_check_is_the_window : forall h v, Generated64.quadkeyCheckZoom h v = I64.ret (qcheck h v).
+Proof. exact qcheck64. Qed.
+Print Assumptions C11_int64_zoom_check_is_the_window.
+
 (* ---- non-vacuity ---- *)
 (* the tile pinned by the unit tests, and a tile whose key has leading zero digits (x = 1, y = 0 at zoom 31: key 1, printed "1") *)
 Example C11_nonvacuous_keys :
@@ -389,6 +417,11 @@ Example C11_nonvacuous_objects :
          (([6; 26], [F64.of_Z (-2); F64.of_Z 5], [(5, 5); (9, 9)]), ([7; 3; 25; 8], [], []))],
         [[(5, 5); (9, 9)]]).
 Proof. vm_compute. reflexivity. Qed.
+
+(* int64: the pinned tile and the largest tile of zoom 31 through the regenerated int64 kernels, no overflow flag *)
+Example C11_nonvacuous_int64 :
+  encode64 6 24 53 = Some (2914, true) /\ encode64 31 (2 ^ 31 - 1) (2 ^ 31 - 1) = Some (4 ^ 31 - 1, true).
+Proof. vm_compute. split; reflexivity. Qed.
 
 (* ---- tie to the source by regeneration (DESIGN.md 4.2): transform.quadkeyCheckZoom translated from /repo's current source is the zoom window 1..31 x 0..35 ---- *)
 From SIDGen Require Generated.
